@@ -26,15 +26,18 @@ func C12(c *Ctx) {
 	}
 	c.Bound("fixpoints: all grammars with R rules (R,maxLen) in %v over nonterminals {X,Y,Z} and terminals {a,b}; usability: all rule sets (R,maxLen) in %v over the pool {A,B,S,N,T,U} with and without %%type T", fix, use)
 	c.Outside = append(c.Outside, "grammar shapes beyond the bound", "the 2000-state limit", "diagnostics produced by the grammar-file parser itself (C13)")
-	for _, b := range fix {
-		c.RunSym(SymJob{Name: fmt.Sprintf("fixpoints R=%d len<=%d", b[0], b[1]), Eng: engG, PkgPath: RepoModule + "/Grammar", Entry: "VerifFixpoints",
-			Args: []int{b[0], b[1]}, Replay: ReplaySpec{Kind: "repo", PkgDirs: []string{"Grammar"}}})
-		c.MarkDistinct(fmt.Sprintf("fix %v", b))
+	for mode := 0; mode <= 1; mode++ {
+		for _, b := range fix {
+			c.RunSym(SymJob{Name: fmt.Sprintf("fixpoints R=%d len<=%d names=%d", b[0], b[1], mode), Eng: engG, PkgPath: RepoModule + "/Grammar", Entry: "VerifFixpoints",
+				Args: []int{b[0], b[1], mode}, Replay: ReplaySpec{Kind: "repo", PkgDirs: []string{"Grammar"}}})
+			c.MarkDistinct(fmt.Sprintf("fix %v %d", b, mode))
+		}
+		for _, b := range use {
+			c.RunSym(SymJob{Name: fmt.Sprintf("usable R=%d len<=%d start=%d", b[0], b[1], mode), Eng: engP, PkgPath: RepoModule + "/Parser", Entry: "VerifUsable",
+				Args: []int{b[0], b[1], mode}, Replay: ReplaySpec{Kind: "repo", PkgDirs: []string{"Parser"}}})
+			c.MarkDistinct(fmt.Sprintf("use %v %d", b, mode))
+		}
 	}
-	for _, b := range use {
-		c.RunSym(SymJob{Name: fmt.Sprintf("usable R=%d len<=%d", b[0], b[1]), Eng: engP, PkgPath: RepoModule + "/Parser", Entry: "VerifUsable",
-			Args: []int{b[0], b[1]}, Replay: ReplaySpec{Kind: "repo", PkgDirs: []string{"Parser"}}})
-		c.MarkDistinct(fmt.Sprintf("use %v", b))
-	}
+	c.Bound("each shape with the user's start symbol named S / X and named `start` (no %%start directive)")
 	c.NeedCovers("productive", "unproductive", "nullable", "usable", "unusable")
 }
